@@ -634,6 +634,11 @@ class FormulaManager(object):
 
         if width is None:
             raise PysmtValueError("Need to specify a width for the constant")
+        if not is_python_integer(width):
+            # The width is part of the constant: True == 1 and 2.0 == 2
+            # would otherwise name the constants of width 1 and 2
+            raise PysmtTypeError("The width of a bit-vector must be an " \
+                                 "integer. The type was: %s" % str(type(width)))
         if width <= 0:
             raise PysmtValueError("The width of a bit-vector must be positive, " \
                                   "got %s" % str(width))
